@@ -193,6 +193,39 @@ func genEnv(rng *Rng) *g4 {
 	return g
 }
 
+// secondaryKey: the second merge key of the lists with a composite key ("" for single-key lists)
+func secondaryKey(primary string) string {
+	switch primary {
+	case "containerPort", "port":
+		return "protocol"
+	case "topologyKey":
+		return "whenUnsatisfiable"
+	}
+	return ""
+}
+
+// Pod spec.topologySpreadConstraints: merge keys [topologyKey, whenUnsatisfiable]
+func genTSC(rng *Rng) *g4 {
+	g := &g4{kind: 2}
+	mode := rng.Intn(100)
+	for _, k := range pickN(rng, []string{"zone", "hostname", "region"}, 1+rng.Intn(2)) {
+		e := gM("topologyKey", k)
+		if mode >= 70 || (mode >= 40 && rng.Chance(50)) {
+			e.set("whenUnsatisfiable", gS(rng.Pick([]string{"DoNotSchedule", "ScheduleAnyway"})))
+		}
+		if rng.Chance(60) {
+			e.set("maxSkew", gS(rng.Pick([]string{"1", "2"})))
+		}
+		g.vals = append(g.vals, e)
+	}
+	if mode >= 40 && rng.Chance(20) {
+		k := g.vals[0].get("topologyKey").text
+		g.vals[0].set("whenUnsatisfiable", gS("DoNotSchedule"))
+		g.vals = append(g.vals, gM("topologyKey", k, "whenUnsatisfiable", "ScheduleAnyway"))
+	}
+	return g
+}
+
 func genPorts(rng *Rng, key string) *g4 {
 	g := &g4{kind: 2}
 	// the secondary merge key (protocol): written on no element (the usual hand-written style), on every element,
@@ -290,6 +323,9 @@ func genPodSpec(rng *Rng) *g4 {
 	}
 	if rng.Chance(20) {
 		ps.set("serviceAccountName", gS("sa"))
+	}
+	if rng.Chance(20) {
+		ps.set("topologySpreadConstraints", genTSC(rng))
 	}
 	return ps
 }
@@ -406,7 +442,7 @@ func genTarget(rng *Rng) (*g4, kindSpec) {
 
 // listKeyOf guesses the merge key the elements of a list of maps are addressed by.
 func listKeyOf(l *g4) string {
-	for _, k := range []string{"containerPort", "port", "mountPath", "name", "key"} {
+	for _, k := range []string{"containerPort", "port", "topologyKey", "mountPath", "name", "key"} {
 		all := len(l.vals) > 0
 		for _, e := range l.vals {
 			if e.kind != 1 || e.get(k) == nil {
@@ -627,7 +663,7 @@ func (p *pgen) patchList(v *g4, depth int) *g4 {
 		}
 		return out
 	}
-	if key == "containerPort" || key == "port" {
+	if secondaryKey(key) != "" {
 		p.op("multi-key-list")
 	}
 	if key == "" {
@@ -706,8 +742,10 @@ func (p *pgen) patchList(v *g4, depth int) *g4 {
 			}
 			ne := gM(key, kv)
 			// multi-key lists: sometimes spell the secondary key too
-			if pr := e.get("protocol"); pr != nil && (key == "containerPort" || key == "port") && rng.Chance(60) && pe.get("protocol") == nil {
-				ne.set("protocol", pr.clone())
+			if sk := secondaryKey(key); sk != "" {
+				if pr := e.get(sk); pr != nil && rng.Chance(60) && pe.get(sk) == nil {
+					ne.set(sk, pr.clone())
+				}
 			}
 			ne.keys = append(ne.keys, pe.keys...)
 			ne.vals = append(ne.vals, pe.vals...)
@@ -725,7 +763,7 @@ func (p *pgen) patchList(v *g4, depth int) *g4 {
 			out.vals = append(out.vals, ne)
 		case r < 88:
 			p.op("elem-same")
-			if e.get("ports") != nil {
+			if e.get("ports") != nil || e.get("topologySpreadConstraints") != nil {
 				p.op("multi-key-list")
 			}
 			out.vals = append(out.vals, e.clone())
@@ -797,6 +835,14 @@ func (p *pgen) newElem(key, val string) *g4 {
 		if p.rng.Chance(50) {
 			e.set("protocol", gS(p.rng.Pick([]string{"TCP", "UDP"})))
 		}
+	case "topologyKey":
+		if val == "new1" || val == "new2" || val == "/new" || val == "dup" || val == "n1" || val == "n2" {
+			e.vals[0] = gS(p.rng.Pick([]string{"rack", "zone"}))
+		}
+		if p.rng.Chance(50) {
+			e.set("whenUnsatisfiable", gS(p.rng.Pick([]string{"DoNotSchedule", "ScheduleAnyway"})))
+		}
+		e.set("maxSkew", gS("1"))
 	case "mountPath":
 		e.set("name", gS("v9"))
 	default:
